@@ -199,13 +199,20 @@ def to_connected_graph(
     for n_sup in nodes_sup:
         if len(non_ancestors) == 0:
             break
+        # A vertex that ends exactly when n_sup starts may depend on n_sup (zero-delay tie). Connecting it to n_sup would
+        # close a cycle, so it is kept for a later supervisor vertex instead.
+        dependents = []
         while len(non_ancestors) > 0:
             n_non = G.nodes[non_ancestors[0]]
             if n_non["ts_end"] <= G.nodes[n_sup]["ts_start"]:
+                if n_non["ts_end"] == G.nodes[n_sup]["ts_start"] and nx.has_path(G, n_sup, non_ancestors[0]):
+                    dependents.append(non_ancestors.pop(0))
+                    continue
                 G.add_edge(non_ancestors[0], n_sup)
                 non_ancestors.pop(0)
             else:
                 break
+        non_ancestors = dependents + non_ancestors
     return G
 
 
